@@ -1,6 +1,7 @@
 P = dict(
     harness='c04_leakacct.cpp',
-    variants=dict(quick=['asan'], thorough=['asan', 'asan-noguard']),
+    variants=dict(quick=['asan', 'memcheck'], thorough=['asan', 'asan-noguard', 'memcheck']),
+    memcheck_stride=dict(quick=40, thorough=40),
     level='exploration',
     technique='runtime monitoring: std::map reference model of the outstanding-block set compared with the real MemoryLeakDetector after every operation of generated allocation histories '
               '(totals for all four periods, parsed report entries, failure callbacks, invalidateMemory identity probe, final drain), arena allocator with chosen address residues mod 73, ASan/UBSan build with manual arena poisoning',
